@@ -1777,6 +1777,10 @@ class PGPKey(Armorable, ParentRef, PGPObject):
             return
 
         for sk in itertools.chain([self], self.subkeys.values()):
+            if sk.is_protected and not sk.is_unlocked:
+                # the secret of a subkey that is locked on its own is not at hand: it keeps the passphrase it has
+                continue
+
             sk._key.protect(passphrase, enc_alg, hash_alg)
 
         del passphrase
